@@ -174,7 +174,11 @@ class PyEval(MiniEval):
         if isinstance(e, ast.Dict) and not e.keys:
             return {}
         if isinstance(e, ast.Subscript):
+            if ast.unparse(e) in env:
+                return env[ast.unparse(e)]
             v = self.ev(e.value, env)
+            if isinstance(v, Tok) and "__getitem__" in v.attrs:
+                return v.attrs["__getitem__"](self.ev(e.slice, env))
             if isinstance(v, (list, tuple, str)):
                 if isinstance(e.slice, ast.Slice):
                     lo = self.ev(e.slice.lower, env) if e.slice.lower else None
@@ -310,6 +314,8 @@ class PyEval(MiniEval):
             if isinstance(recv, list) and m == "append":
                 recv.append(A()[0])
                 return None
+            if isinstance(recv, dict) and m in ("keys", "values", "items") and not node.args:
+                return {"keys": set(recv), "values": list(recv.values()), "items": list(recv.items())}[m]
             return Opaque(ast.unparse(node)[:50])
         if fn == "isinstance" and len(node.args) == 2:
             v, t = A()
